@@ -29,7 +29,11 @@ RULE = ('peephole: seeded random streams of real instruction objects (Label, x86
         'DagSplitter for x86_64, arm and riscv; non-trivial = block whose copy sequence has at least two phis or a phi-register source. '
         'native search: generated UB-free C translation units (unsigned/int/long arithmetic, loops with swapped and carried variables, '
         'do-while, arrays, switch, calls with up to 6 arguments, globals) at -O0/1/2/s, linked by gcc and by the ppci linker, '
-        'stdout+exit status compared with the gcc -O0 build; counted under evaluations, not under distinct_nontrivial')
+        'stdout+exit status compared with the gcc -O0 build; counted under evaluations, not under distinct_nontrivial. '
+        'systematic native programs (tools/gen/csysgen.py, every run, -O0 and -O2): all 100 integer conversions S->D over 10 types on '
+        '{0,1,-1,MIN,MAX,MAX/2+1} as return/assignment/cast/argument/inside xor,add,compare; + - * / % & | ^ << >> and the six '
+        'comparisons on every type over 9 boundary operands (undefined combinations excluded by exact arithmetic); loads/stores/'
+        'struct fields of every width; calls with 9-11 integer arguments - validation only')
 EXPLANATION = ('Partial by nature. Unbounded Coq theorems about two logical cores of the x86-64 path (phi lowering, peephole '
                'filter) over hand models tied to the code by differential correspondence, plus a reflected check of an exported '
                'table. NOT modelled: x86-64 instruction semantics and encodings, instruction selection rules, register allocation '
@@ -948,6 +952,15 @@ int entry(void)
 '''
 
 
+def csys():
+    """tools/gen/csysgen.py: the systematic C programs"""
+    import importlib
+    g = os.path.join(os.path.dirname(os.path.dirname(os.path.abspath(__file__))), 'gen')
+    if g not in sys.path:
+        sys.path.insert(0, g)
+    return importlib.import_module('csysgen')
+
+
 def native_available():
     import platform
     return bool(shutil.which('gcc')) and platform.machine() == 'x86_64' and platform.system() == 'Linux'
@@ -1106,7 +1119,7 @@ LOST_COPY_FN = 'native:phi-lost-copy'
 PENDING_FN = 'native:pending-fix-of-another-property'
 
 
-def native_compare(ctx, nat, src, label, pending, levels=(0, 1, 2, 's'), both_links=True):
+def native_compare(ctx, nat, src, label, pending, levels=(0, 1, 2, 's'), both_links=True, groups=None):
     """-> number of executions; reports mismatches"""
     from ppci.common import CompilerError
     ref = nat.reference(src)
@@ -1140,7 +1153,14 @@ def native_compare(ctx, nat, src, label, pending, levels=(0, 1, 2, 's'), both_li
                    'how_to_replay': 'save source as t.c; reference: gcc -O0 main.c t.c (main.c = DRIVER_GCC of tools/props/c04.py); '
                                     'ppci: api.cc(t.c, "x86_64", opt_level) -> write_elf(relocatable) -> gcc -no-pie main.c t.o '
                                     '(or api.link with START_ASM/START_C/MMAP + objcopy elf); compare stdout and exit status'}
-            sig = (label, str(got[0]), re.sub(r'0x[0-9a-f]+', '0x', str(got[1])))
+            if groups is not None:
+                # systematic program: name the function / type pair of the first differing output line, keep the replay small
+                fd = csys().first_difference(groups, ref[1], got[1]) if isinstance(got[0], int) else None
+                case = fd[0] if fd else 'exit status / crash'
+                rec.update({'fn': 'native:systematic', 'case': case, 'key': 'systematic:%s:%s' % (label, case),
+                            'expected': {'exit': ref[0], 'first_differing_line': fd[1:] if fd else None},
+                            'actual': {'exit': got[0], 'stdout_or_error': str(got[1])[:300] if not fd else '(see first_differing_line: line, gcc, ppci)'}})
+            sig = (label, str(got[0]), re.sub(r'0x[0-9a-f]+', '0x', str(got[1]))[:4000], rec.get('case'))
             try:
                 if ctx.failed_stages:
                     # the code no longer corresponds to the models / proofs: no mismatch is written off as a known finding
@@ -1174,6 +1194,23 @@ def native_stage(ctx, thorough, isolated, deep):
     runs += n
     if why:
         ctx.log('witness program:', why)
+    # systematic programs (validation, NOT proof; x86-64 selection rules have no Coq model): full integer conversion matrix,
+    # binary-operator matrix on boundary operands, loads/stores/struct fields of every width, calls with 9-11 arguments;
+    # every quick run, -O0 and -O2, one native run each, compared with gcc -O0
+    ts = time.time()
+    sysres = {}
+    for (lab, ssrc, groups) in csys().programs():
+        n, why = native_compare(ctx, nat, ssrc, 'systematic:' + lab, pending, levels=(0, 2), both_links=False, groups=groups)
+        runs += n
+        sysres[lab] = {'native_runs': n, 'groups': len(groups)}
+        if why:
+            sysres[lab]['problem'] = why
+            ctx.violation({'fn': 'native:systematic', 'case': 'build', 'key': 'systematic:%s:build' % lab, 'program': lab,
+                           'expected': 'gcc -O0/-O2 agree and ppci compiles the program', 'actual': why,
+                           'how_to_replay': 'tools/gen/csysgen.py programs(); build as in native_compare'})
+    ctx.cov['stages']['native_systematic'] = dict(sysres, wall_s=round(time.time() - ts, 1),
+                                                  note='validation only: differential execution against gcc -O0')
+    t0 = time.time()
     nprog = 60 if thorough else (24 if deep else 8)
     budget = 600 if thorough else (200 if deep else 45)
     for k in range(nprog):
